@@ -168,7 +168,8 @@ class FixedGaussianNoise(Module):
         elif shape[-1] == self.noise.shape[-1]:
             return DiagLinearOperator(self.noise)
         else:
-            return ZeroLinearOperator()
+            # a no-op of the right shape (the sum of two ZeroLinearOperators is its second operand)
+            return ZeroLinearOperator(*shape, shape[-1], dtype=self.noise.dtype, device=self.noise.device)
 
     def _apply(self, fn):
         self.noise = fn(self.noise)
